@@ -19,8 +19,8 @@ PROPERTY = "C13"
 LEVEL = "exploration"
 RULE = (
     "sub-check 'spec': a grammar (vt/gen/idspec.py) generates programs = top-level lists of 2..6 elements over a zoo of "
-    "19 registered classes (Parameter incl. *_like, View/Cat/TransformedParameter, Distribution over Normal/LogNormal/Gamma/"
-    "Exponential/Dirichlet, JointDistributionModel, CTMCScale, 3 site models, JC69/HKY/GTR, Taxon, Taxa, UnRooted/TimeTreeModel, "
+    "20 registered classes (Parameter incl. *_like, View/Cat/TransformedParameter, Distribution over Normal/LogNormal/Gamma/"
+    "Exponential/Dirichlet, JointDistributionModel, CTMCScale, 3 site models, JC69/HKY/GTR, Taxon, Taxa, UnRooted/Time/FlexibleTimeTreeModel, "
     "Strict/SimpleClockModel); every typed slot is filled by an inline definition or by the id of an object completed earlier "
     "(earlier top-level element, earlier element of a list at any depth); top-level sub-lists, top-level string elements and "
     "plates (range a:b[:2], var or trailing '*') in every list slot; then with probability 1/2 one injected fault (same id "
@@ -175,6 +175,8 @@ ACCESS = {
     ("UnRootedTreeModel", "branch_lengths"): lambda o: o._branch_lengths,
     ("TimeTreeModel", "taxa"): lambda o: o._taxa,
     ("TimeTreeModel", "internal_heights"): lambda o: o._internal_heights,
+    ("FlexibleTimeTreeModel", "taxa"): lambda o: o._taxa,
+    ("FlexibleTimeTreeModel", "internal_heights"): lambda o: o._internal_heights,
     ("StrictClockModel", "tree_model"): lambda o: o.tree,
     ("StrictClockModel", "rate"): lambda o: o._rates,
     ("SimpleClockModel", "tree_model"): lambda o: o.tree,
